@@ -29,7 +29,7 @@ def hook(cfg, tshim, mode):
 
     import seqm.MolecularDynamics as MDm
 
-    rec = {"P": [], "L": [], "pad": 0.0, "mass": None, "x0pad": None}
+    rec = {"P": [], "L": [], "Pabs": [], "Labs": [], "pad": 0.0, "mass": None, "x0pad": None}
 
     def momenta(molecule):
         ms = molecule.mass
@@ -55,6 +55,8 @@ def hook(cfg, tshim, mode):
                     rec["x0pad"] = molecule.coordinates.detach().clone()
                 r = o(self, i, molecule, *a, **kw)
                 P, L, sp, sl = momenta(molecule)
+                rec["Pabs"].append(float((P.norm(dim=1) / sp.clamp(min=1e-300)).max()))
+                rec["Labs"].append(float((L.norm(dim=1) / sl.clamp(min=1e-300)).max()))
                 rec["P"].append(float(((P - rec["P0"]).norm(dim=1) / sp.clamp(min=1e-300)).max()))
                 rec["L"].append(float(((L - rec["L0"]).norm(dim=1) / sl.clamp(min=1e-300)).max()))
                 pad = molecule.species == 0
@@ -67,7 +69,7 @@ def hook(cfg, tshim, mode):
         setattr(cls, "_do_integrator_step", make(o))
 
     def report():
-        return {"P": max(rec["P"]) if rec["P"] else 0.0, "L": max(rec["L"]) if rec["L"] else 0.0, "pad": rec["pad"], "mass": rec["mass"]}
+        return {"P": max(rec["P"]) if rec["P"] else 0.0, "L": max(rec["L"]) if rec["L"] else 0.0, "pad": rec["pad"], "mass": rec["mass"], "Pabs": rec["Pabs"], "Labs": rec["Labs"]}
 
     return {"report": report}
 
@@ -116,6 +118,7 @@ def gen(rng, tier, i):
     small = any(len(mdsim.POOL[m][0]) <= 2 for m in cfg["batch"])
     variants = ["reuse_off"]
     variants.append(rng.choice(["com_linear"] if small else ["com_linear", "com_angular"]))
+    variants.append("com_moving_linear" if small else rng.choice(["com_moving_linear", "com_moving_angular"]))
     if rng.random() < 0.5:
         variants.append("crash_resume")
     cfg["variants"] = variants if cfg["driver"] == "stub" else variants[:1]
@@ -333,6 +336,40 @@ def _execute(record, root):
             start = {"coords": [_series(base, m)[1][0].tolist() for m in range(nm)], "vel": [_series(base, m)[2][0].tolist() for m in range(nm)]}
             c = member(cfg, 1, remove_com=[var[4:], cfg["com_stride"]], init=start)
             crashes = ()
+        elif var in ("com_moving_linear", "com_moving_angular"):
+            # a molecule away from the origin, translating and rotating as a whole (user-supplied velocities):
+            # the first removal must zero P (and L), and NVE dynamics must keep them zero afterwards
+            rr = core.rng_for("c08moving", cfg["seed"])
+            start = {"coords": [], "vel": []}
+            for m in range(nm):
+                x = _series(base, m)[1][0]
+                v = _series(base, m)[2][0]
+                shift = np.array([rr.uniform(-3, 3) for _ in range(3)])
+                vt = np.array([rr.uniform(-0.01, 0.01) for _ in range(3)])
+                om = np.array([rr.uniform(-0.01, 0.01) for _ in range(3)])
+                start["coords"].append((x + shift).tolist())
+                start["vel"].append((v + vt + np.cross(om, x)).tolist())
+            c = member(cfg, 1, remove_com=[var[11:], cfg["com_stride"]], init=start)
+            d, data, reps = _run(c, root, var)
+            stats["members"] += 1
+            stats["probes"][f"variant_{var}"] = 1
+            if data is None:
+                failures.append(core.fail("run-failed", f"variant {var} raised {reps[-1].get('exc')}", classify=cls))
+                continue
+            h = reps[-1]["report"]["hook"]
+            # the wrapper observes right after the integrator step, i.e. BEFORE the run loop's removal of the
+            # same step: the first observation is legitimately non-zero, every later one must vanish
+            pw = max(h["Pabs"][1:]) if len(h["Pabs"]) > 1 else 0.0
+            lw = max(h["Labs"][1:]) if len(h["Labs"]) > 1 else 0.0
+            worst("Pabs_after_removal" + ("_real" if real_drv else ""), pw)
+            bound = tol["mom_rel"] * (1e4 if real_drv else 100)
+            if pw > bound:
+                failures.append(core.fail("momentum-after-com-removal", f"{var} (stride {cfg['com_stride']}): |P|/sum m|v| reaches {pw:.2e} although linear momentum is removed at step 1 and NVE conserves it", classify=cls))
+            if var.endswith("angular"):
+                worst("Labs_after_removal" + ("_real" if real_drv else ""), lw)
+                if lw > tol["mom_rel"] * (1e5 if real_drv else 1000):
+                    failures.append(core.fail("angular-momentum-after-com-removal", f"{var} (stride {cfg['com_stride']}): |L|/sum m|v||r| reaches {lw:.2e} although angular momentum is removed at step 1 and NVE conserves it", classify=cls))
+            continue
         else:
             c = member(cfg, 1)
             c["out"]["ckpt"] = max(2, S // 5)
